@@ -60,7 +60,7 @@ Definition k02_ev (persistent : bool) (k : k02) (e : event) : k02 :=
   | Ret tag mid q rc =>
       if (q >? 0) && ((rc =? 0) || (rc =? 4)) then mkK02 (k2_live k ++ [mkL tag mid q]) (k2_sent k) (k2_rec k) (k2_ok k)
       else k
-  | In (IPubrec mid) =>
+  | Inp (IPubrec mid) =>
       match lfind_mid mid (k2_live k) with
       | Some m => mkK02 (k2_live k) (k2_sent k) (zadd (l_tag m) (k2_rec k)) (k2_ok k)
       | None => k
@@ -74,7 +74,7 @@ Definition k02_ev (persistent : bool) (k : k02) (e : event) : k02 :=
   end.
 (* at the end of the operation that processed an accepting CONNACK every message that is past
    PUBREC has had its PUBREL written in that operation *)
-Definition is_connack0 (e : event) : bool := match e with In (IConnack rc) => rc =? 0 | _ => false end.
+Definition is_connack0 (e : event) : bool := match e with Inp (IConnack rc) => rc =? 0 | _ => false end.
 Definition pubrel_tags (evs : list event) : list Z :=
   flat_map (fun e => match e with Tx _ (PPubrel _ tag) => [tag] | _ => [] end) evs.
 Definition k02_op (persistent : bool) (k : k02) (evs : list event) : k02 :=
@@ -119,14 +119,14 @@ Definition k01_ev (k : k01) (e : event) : k01 :=
   | SockOpened _ => mkK01 (k1_live k) (k1_q0 k) (k1_done k) [] false (k1_ok k)
   | SockLost => mkK01 (k1_live k) (k1_q0 k) (k1_done k) (k1_onconn k) false (k1_ok k)
   | Reconn => mkK01 (k1_live k) (k1_q0 k) (k1_done k) (k1_onconn k) false (k1_ok k)
-  | In (IConnack rc) => mkK01 (k1_live k) (k1_q0 k) (k1_done k) (k1_onconn k) (rc =? 0) (k1_ok k)
+  | Inp (IConnack rc) => mkK01 (k1_live k) (k1_q0 k) (k1_done k) (k1_onconn k) (rc =? 0) (k1_ok k)
   | _ => k
   end.
 (* completion happens only in the operation that processes the final acknowledgement of that id *)
 Definition final_ack_of (m : lmsg) (e : event) : bool :=
   match e with
-  | In (IPuback mid) => (l_qos m =? 1) && (mid =? l_mid m)
-  | In (IPubcomp mid) => (l_qos m =? 2) && (mid =? l_mid m)
+  | Inp (IPuback mid) => (l_qos m =? 1) && (mid =? l_mid m)
+  | Inp (IPubcomp mid) => (l_qos m =? 2) && (mid =? l_mid m)
   | _ => false
   end.
 Definition completed_tags (evs : list event) : list Z :=
@@ -179,7 +179,7 @@ Definition strip_conn (e : event) : event :=
 Definition raised_in (evs : list event) : bool :=
   existsb (fun e => match e with Raised => true | _ => false end) evs.
 Fixpoint first_in (evs : list event) : option inpkt :=
-  match evs with [] => None | In p :: _ => Some p | _ :: l => first_in l end.
+  match evs with [] => None | Inp p :: _ => Some p | _ :: l => first_in l end.
 
 Record k03 := mkK03 { k03_pend : list (Z * Z); k03_first : bool; k03_ok : bool }.
 Definition k03_init := mkK03 [] true true.
